@@ -408,6 +408,22 @@ impl<'a, 'b> Gen<'a, 'b> {
     fn lit_line(&mut self, w: u32) -> usize {
         let sl = self.sort_line(BSort::Bv(w));
         let v = Bv::new(w, self.t.bits(w));
+        // tokens that read differently in base 10 and base 16 ("10" .. "25"), drawn from a small pool so
+        // that one file often holds the same token under both constructors (and the same width)
+        if w >= 6 && self.t.chance(36) {
+            let token = self.t.range(10, 25).to_string();
+            let hex = self.t.flag();
+            let value = u64::from_str_radix(&token, if hex { 16 } else { 10 }).unwrap();
+            if w >= 7 || value < (1u64 << w) {
+                let name = self.maybe_name(12);
+                return self.push(
+                    LineKind::Op { op: if hex { "consth" } else { "constd" }.to_string(), args: vec![], params: vec![], lit: Some(token) },
+                    Some(BSort::Bv(w)),
+                    Some(sl),
+                    name,
+                );
+            }
+        }
         let (op, lit): (&str, Option<String>) = match self.t.below(7) {
             0 => ("zero", None),
             1 => ("one", None),
